@@ -42,6 +42,15 @@ def scan_writes(tree, modname, relpath, parents):
         elif isinstance(node, ast.Attribute) and node.attr in ("__dict__", "__setattr__", "__delattr__", "__slots__"):
             out.append(("dict", _fn(node, parents), _cl(node, parents), node, False, f"access to {node.attr}"))
             continue
+        elif isinstance(node, ast.Call) and isinstance(node.func, ast.Attribute) and node.func.attr == "__init__":
+            # re-initialisation: an explicit __init__ call is construction only inside a constructor (super().__init__(...),
+            # Base.__init__(self, ...)); anywhere else it rewrites an existing - possibly shared - object
+            fnode = _fnode(node, parents)
+            inside_ctor = fnode is not None and fnode.name in ("__init__", "__new__", "__post_init__", "__init_subclass__") \
+                and _direct_function(node, parents) is fnode
+            out.append(("reinit", _fn(node, parents), _cl(node, parents), node, inside_ctor,
+                        "" if inside_ctor else f"`{norm_text(node)[:60]}` re-initialises an existing object outside a constructor"))
+            continue
         if tgt is None:
             continue
         fn = _fn(tgt, parents)
@@ -521,8 +530,23 @@ class SetFlow:
         c = self.by_name.get((f.module.name, name))
         return c[0] if c and len(c) == 1 else None
 
+    def _record_set_fields(self):
+        """Names of record fields (NamedTuple / dataclass) annotated as sets anywhere in the package."""
+        if not hasattr(self, "_rsf"):
+            self._rsf = set()
+            for ci in self.model.all_classes():
+                for st in ci.node.body:
+                    if isinstance(st, ast.AnnAssign) and isinstance(st.target, ast.Name) and \
+                            ast.unparse(st.annotation).replace("'", "").replace("_", "").lower().startswith(("set", "frozenset", "abstractset")):
+                        if any(b.split(".")[-1] in ("NamedTuple",) for b in ci.external_bases()) or "dataclass" in " ".join(ci.decorators):
+                            self._rsf.add(st.target.id)
+        return self._rsf
+
     def is_set(self, f, expr):
         if isinstance(expr, (ast.Set, ast.SetComp)):
+            return True
+        if isinstance(expr, ast.Attribute) and expr.attr in self._record_set_fields() and not \
+                (isinstance(expr.value, ast.Name) and expr.value.id in ("self", "cls", "__class__")):
             return True
         if isinstance(expr, ast.Name):
             return expr.id in self.set_vars[f] or (f.outer is not None and self.is_set(f.outer, expr))
@@ -849,6 +873,11 @@ def _worklist_to_set(model, sf: SetFlow, f: FuncInfo):
         if v is None:
             return False
         elts = v.elts if isinstance(v, ast.Tuple) else [v]
+        if isinstance(v, ast.Call) and not v.keywords and v.args and not (isinstance(v.func, ast.Name) and v.func.id == "set"):
+            # a record of sets instead of a tuple of sets: `return _Members(ranges, chars)` with a NamedTuple / dataclass
+            ci = model.resolve_class_expr(f.module, v.func)
+            if ci is not None and len(ci.fields) == len(v.args):
+                elts = list(v.args)
         for e in elts:
             if not (sf.is_set(f, e) or (isinstance(e, ast.Call) and isinstance(e.func, ast.Name) and e.func.id == "set")):
                 return False
@@ -1060,6 +1089,13 @@ def run(ctx, model: Model):
                           f"shared state can be mutated through an alias: {reason}", node.lineno)
     ctx.instance("R-NOSHARED", key="tables", sample=f"{n_tables} class-level/module-level names guarded", n=max(n_tables, 1))
     ctx.floor("R-NOSHARED", n_tables, 3, "class-level / module-level tables")
+
+    # --------------------------------------------------- R-SETORDER, semantic companion: the set-in / set-out worklists that the
+    # syntactic classification accepts are assumed confluent - here the one place where non-confluence is NOT harmless
+    # (a completely merged 0-9 becomes the non-equivalent shorthand \d) is evaluated under eight iteration orders
+    from . import c07 as _c07
+    n_conf = _c07.confluence_rule(ctx, model, "R-SETORDER")
+    ctx.instance("R-SETORDER", key="confluence", sample=f"{n_conf} digit-chain unions have the same pattern structure under 8 iteration orders")
 
     # --------------------------------------------------- R-HISTORY (semantic companion of R-NOSHARED / R-WRITEONCE)
     _history(ctx, model)
